@@ -307,8 +307,9 @@ def b_events(rng, tier):
     from pymeeus.Epoch import Epoch
     from pymeeus.Sun import Sun
     from pymeeus.Earth import Earth
-    eras = (-1990.0, -500.0, 1000.0, 1990.0, 2500.0, 3900.0) if tier == "thorough" else (-1990.0, 500.0, 1990.0, 3900.0)
-    per_era = 40 if tier == "thorough" else 6
+    # (the early eras carry the t^2 and t^3 coefficients of the periodic terms: two of them, and more queries, also in the quick tier)
+    eras = (-1990.0, -1750.0, -500.0, 1000.0, 1990.0, 2500.0, 3900.0) if tier == "thorough" else (-1990.0, -1750.0, 500.0, 1990.0, 3900.0)
+    per_era = 40 if tier == "thorough" else 10
 
     def jd_of_year(y):
         return 2451545.0 + (y - 2000.0) * 365.25
